@@ -311,6 +311,10 @@ def impl(op, backend):
     r = cls(years=d.years, months=d.months, weeks=d.weeks, days=d.remaining_days, hours=d.hours, minutes=d.minutes,
             seconds=d.remaining_seconds, microseconds=d.microseconds)
     rebuilt = int(r == d and fields(r) == f and r.invert == d.invert)
+    # ... and through the rebuild paths of the class itself (deepcopy rebuilds from the components, -(-d) from the negated ones)
+    import copy
+    for r2 in (copy.deepcopy(d), -(-d)):
+        rebuilt &= int(type(r2) is type(d) and r2 == d and fields(r2) == f and r2.invert == d.invert)
     # public view agrees with the native slots; total_*() agree with total_seconds()
     plain = timedelta(days=f[0], seconds=f[1], microseconds=f[2])
     pub = int(d == plain and hash(d) == hash(plain) and d.total_seconds() == plain.total_seconds()
